@@ -205,7 +205,7 @@ theorem placeG_sim (n d : Nat) (st st' : GridState Φ) (b : BinState Φ) (h : Re
       obtain ⟨A, hA, hl, hwA⟩ := h.cur
       have hAv : ∀ x ∈ A, validE st.calls x := fun x hx =>
         colOf_valid st.calls st.grid h.valid st.j x (by rw [hA]; simp [hx])
-      obtain ⟨B, hB, hBl, hBw, hBi, hBv⟩ := place_list st.calls n st.s w i e it _ A hA hl hwA hAv hw hit hv hrow hfit
+      obtain ⟨B, hB, hBl, hBw, hBi, hBv, _⟩ := place_list st.calls n st.s w i e it _ A hA hl hwA hAv hw hit hv hrow hfit
       have hset : (colOf st.grid st.j).set i e = B ++ List.replicate (n - (st.s + w)) Entry.one := by
         unfold setAt at hB
         split at hB
@@ -255,7 +255,7 @@ theorem placeG_sim (n d : Nat) (st st' : GridState Φ) (b : BinState Φ) (h : Re
       obtain ⟨row, hr, hi, hj, rfl⟩ := gridWrite_ok _ _ _ _ _ hg
       have hnew : colOf st.grid (st.j + 1) = [] ++ List.replicate (n - 0) Entry.one := by
         simpa using h.later (st.j + 1) (by omega)
-      obtain ⟨B, hB, hBl, hBw, hBi, hBv⟩ := place_list st.calls n 0 w i e it _ [] hnew rfl rfl (by simp) hw hit hv hrow hfit
+      obtain ⟨B, hB, hBl, hBw, hBi, hBv, _⟩ := place_list st.calls n 0 w i e it _ [] hnew rfl rfl (by simp) hw hit hv hrow hfit
       have hset : (colOf st.grid (st.j + 1)).set i e = B ++ List.replicate (n - (0 + w)) Entry.one := by
         unfold setAt at hB
         split at hB
